@@ -43,7 +43,8 @@ def gen_named(rng, lf_ok=True, force=None):
     s.refs.append((rng.choice([b"refs/heads/main", b"refs/heads/caf\xc3\xa9", b"refs/heads/q\"uote", b"refs/heads/a'b", b"refs/heads/\xff\xfe",
                                b"refs/heads/" + b"n" * 200, b"refs/heads/wide\xc2\xa0name", b"refs/heads/ls\xe2\x80\xa8sep",
                                b"refs/heads/ideo\xe3\x80\x80space", b"refs/heads/nel\xc2\x85x", b"refs/heads/en\xe2\x80\x82quad",
-                               b"refs/heads/rel-50%stable", b"refs/heads/%d%s%v"]), c2))
+                               b"refs/heads/rel-50%stable", b"refs/heads/%d%s%v", b"refs/heads/trail\xc2\xa0", b"refs/heads/trail\xe3\x80\x80",
+                               b"refs/heads/\xc2\x85lead"]), c2))
     if rng.random() < 0.3:
         s.refs.append((rng.choice([b"refs/tags/thin\xe2\x80\x89sp", b"refs/notes/nb\xc2\xa0sp", b"refs/remotes/o/fig\xe2\x80\x87sp"]), c))
     s.refs.append((b"refs/tags/v2", g2))
@@ -140,7 +141,11 @@ def run(ctx):
             cfg = []
             if rng.random() < 0.5:
                 gname = rng.choice(["My \"Group\"", "café", "a\\b", "x" * 100, "tab\there"])
-                cfg = [("refgroup.mine.name", gname), ("refgroup.mine.include", "refs/heads")]
+                # the group's symbol (the gitconfig subsection) is a name too: spaces, quotes, '%', and every character that
+                # means something to a regular expression or a glob
+                gsym = rng.choice(["mine", "mine", "Team A", "q\"uote", "al\\pha", "be(t)a", "gam++a", "de[l]ta", "open(", "cur{ly", "st*r?",
+                                   "a|b", "^hat$", "caf\u00e9", "50%d", "semi;colon", "ha#sh"])
+                cfg = [("refgroup.%s.name" % gsym, gname), ("refgroup.%s.include" % gsym, "refs/heads")]
             roots = [len(sc.objects) - 1, len(sc.objects) - 3]
             order = sc.enum_gitlike(roots)
             real = (it % 5 == 0)
